@@ -109,9 +109,21 @@ func machine() engine.Machine[*state] {
 				if op == nW+2 {
 					nh.Write(msgOf(100)[7:])
 				}
-				if err := nh.(encoding.BinaryUnmarshaler).UnmarshalBinary(st); err != nil {
+				// the exported state sits in a buffer with dirty spare capacity and is overwritten after the import
+				stb := make([]byte, len(st)+16)
+				for i := range stb {
+					stb[i] = 0xa5
+				}
+				copy(stb, st)
+				if err := nh.(encoding.BinaryUnmarshaler).UnmarshalBinary(stb[:len(st)]); err != nil {
 					t.Fail("hash/unmarshal-error", "UnmarshalBinary of own state: %v", err)
 					return false
+				}
+				for i := range stb {
+					stb[i] = 0x5a
+				}
+				for i := range st {
+					st[i] = 0x5a
 				}
 				s.h = nh
 			}
@@ -123,12 +135,31 @@ func machine() engine.Machine[*state] {
 				t.Fail("hash/digest-mismatch", "after %d bytes: Sum=%x want %x", s.n, got, want)
 				return false
 			}
-			pre := make([]byte, 5, 5+40)
-			copy(pre, "abcde")
-			got2 := s.h.Sum(pre)
-			if len(got2) != 37 || string(got2[:5]) != "abcde" || !bytes.Equal(got2[5:], want[:]) {
-				t.Fail("hash/sum-append", "Sum(prefix) = %x", got2)
-				return false
+			// Sum(prefix) for every capacity class of the prefix: none, one byte short of the digest, exact fit, ample;
+			// the spare capacity is dirty, and every returned slice is overwritten afterwards (it belongs to the caller:
+			// a digest handed out from inside the object would be corrupted for the next call)
+			for i := range got {
+				got[i] = 0x5a
+			}
+			for _, spare := range []int{0, 31, 32, 40} {
+				buf := make([]byte, 5+spare)
+				for i := range buf {
+					buf[i] = 0xa5
+				}
+				pre := buf[:5]
+				copy(pre, "abcde")
+				got2 := s.h.Sum(pre)
+				if len(got2) != 37 || string(got2[:5]) != "abcde" || !bytes.Equal(got2[5:], want[:]) {
+					t.Fail(fmt.Sprintf("hash/sum-append/spare=%d", spare), "Sum(prefix with %d spare bytes) = %x want abcde||%x", spare, got2, want)
+					return false
+				}
+				if string(pre) != "abcde" {
+					t.Fail("hash/sum-append/prefix-modified", "Sum modified its argument")
+					return false
+				}
+				for i := range got2 {
+					got2[i] = 0x5a
+				}
 			}
 			if engine.DumpString(s.h) != before {
 				t.Fail("hash/sum-disturbs-state", "private state changed by Sum after %d bytes", s.n)
